@@ -36,7 +36,7 @@ class IteV(Val):
 
 
 class State(object):
-    __slots__ = ('env', 'pc', 'heap', 'memo', 'trace', 'calls', 'ghostcount', 'entry')
+    __slots__ = ('env', 'pc', 'heap', 'memo', 'trace', 'calls', 'ghostcount', 'entry', 'pending')
 
     def __init__(self):
         self.env = {}
@@ -47,6 +47,7 @@ class State(object):
         self.calls = {}
         self.ghostcount = {}
         self.entry = {}
+        self.pending = []
 
     def fork(self):
         s = State()
@@ -58,6 +59,7 @@ class State(object):
         s.calls = dict(self.calls)
         s.ghostcount = dict(self.ghostcount)
         s.entry = self.entry
+        s.pending = list(self.pending)
         return s
 
     def assume(self, f):
@@ -200,6 +202,12 @@ class Pure(object):
     def safety(self, clause, goal):
         if self.spec or not self.eng.safety:
             return
+        ct = self.eng.cur_contract
+        if ct is not None and clause in ct.raises and self.eng.inline_depth == 0:
+            # an exception the contract declares: not a safety obligation but an exceptional
+            # outcome (decided against the contract's raises-clause at the function exit)
+            self.st.pending.append((simp(z3.And(self.guard, z3.Not(goal))), clause, self.lineno))
+            return
         self.eng.oblig(self.st, 'safety', clause, goal, self.lineno, guard=self.guard)
 
     def unk(self, why):
@@ -322,6 +330,11 @@ class Pure(object):
         return ConstV(SymDict(keys, vals))
 
     def ev_Attribute(self, node):
+        h = getattr(self.eng, 'on_attr_node', None)
+        if h is not None:
+            r = h(self, node)
+            if r is not None:
+                return r
         base = self.ev(node.value)
         return self.getattr(base, node.attr)
 
@@ -1252,7 +1265,20 @@ class PathExec(object):
             if exc is not None:
                 yield st2, exc
             else:
-                yield st2, self.pure(st2, frame, getattr(node, 'lineno', 0)).ev(node)
+                v = self.pure(st2, frame, getattr(node, 'lineno', 0)).ev(node)
+                yield from self.flush_pending(st2, v)
+
+    def flush_pending(self, st, v):
+        """declared exceptions raised by primitive operations during the last evaluation"""
+        pend, st.pending = st.pending, []
+        for cond, name, lineno in pend:
+            if self.eng.feasible(st, cond):
+                s2 = st.fork()
+                s2.assume(cond)
+                s2.trace.append('L%s:raises %s' % (lineno, name))
+                yield s2, ExcV(name, 'raised by an operation at line %s' % lineno)
+            st.assume(z3.Not(cond))
+        yield st, v
 
     def hoist(self, node, st, frame, guard):
         """perform all Call nodes inside `node` in evaluation order; results go to st.calls.
@@ -1604,6 +1630,12 @@ class PathExec(object):
                             if self.eng.feasible(st, t == c):
                                 s2 = st.fork()
                                 s2.assume(t == c)
+                                if is_uconst_term(t):
+                                    # the split variable is an input symbol: make it concrete
+                                    # everywhere (locals and the entry values used by ensures)
+                                    cv = z3.IntVal(c)
+                                    s2.env = {k: subst_val(v, t, cv) for k, v in s2.env.items()}
+                                    s2.entry = {k: subst_val(v, t, cv) for k, v in s2.entry.items()}
                                 s2.env[var] = IntV(c)
                                 s2.trace.append('L%s:%s=%d' % (lineno, var, c))
                                 new.append(s2)
@@ -1851,6 +1883,15 @@ class PathExec(object):
         if s.exc is None:
             yield st, RAISE, ExcV('reraise')
             return
+        if isinstance(s.exc, ast.Call) and isinstance(s.exc.func, ast.Name):
+            # raise SomeError("message" % values): the message is not evaluated (formatting is
+            # outside the modelled subset and cannot change which exception is raised)
+            p = self.pure(st, frame, s.lineno)
+            cls = p.ev(s.exc.func)
+            if isinstance(cls, ConstV) and isinstance(cls.obj, type) and issubclass(cls.obj, BaseException):
+                st.trace.append('L%s:raise' % s.lineno)
+                yield st, RAISE, ExcV(cls.obj.__name__, 'raise at line %s' % s.lineno)
+                return
         for st1, v in self.eval(s.exc, st, frame):
             if isinstance(v, ExcV):
                 yield st1, RAISE, v
@@ -2076,6 +2117,20 @@ class PathExec(object):
                     yield st3, NEXT, None
                 else:
                     yield st3, sig, val
+
+
+def is_uconst_term(t):
+    return z3.is_const(t) and t.decl().kind() == z3.Z3_OP_UNINTERPRETED
+
+
+def subst_val(v, t, c):
+    if isinstance(v, IntV):
+        return IntV(simp(z3.substitute(v.t, (t, c))))
+    if isinstance(v, BoolV):
+        return BoolV(simp(z3.substitute(v.t, (t, c))))
+    if isinstance(v, TupV):
+        return TupV([subst_val(x, t, c) for x in v.items], v.kind)
+    return v
 
 
 def merge_states(a, b):
